@@ -51,7 +51,7 @@ theorem sumBy_append (f : Reader → Nat) : ∀ (rs : List Reader) (r : Reader),
 
 /-- a positive sum has a positive summand -/
 theorem sumBy_pos (f : Reader → Nat) : ∀ (rs : List Reader), 0 < sumBy f rs →
-    ∃ i r, rs[i]? = some r ∧ 0 < f r
+    ∃ (i : Nat) (r : Reader), rs[i]? = some r ∧ 0 < f r
   | [], h => by simp [sumBy] at h
   | x :: rs, h => by
     by_cases hx : 0 < f x
@@ -125,9 +125,12 @@ theorem inv_step (s s' : State) (l : Label) (hinv : SInv s) (hs : step s l = som
       intro r' hl'
       have := sumBy_set (fun r => if r.live then 1 else 0) s.readers i r r' hr
       simp only [hl'] at this; omega
-    rcases hcase with ⟨_, _, rfl⟩ | ⟨_, _, rfl⟩ <;>
+    rcases hcase with ⟨_, _, rfl⟩ | ⟨_, _, rfl⟩
     · simp only [setReader]
-      rw [key _ rfl]
+      rw [key { r with work := 0, unwound := true } rfl]
+      exact ⟨hcl, hcc, hpa, hfl⟩
+    · simp only [setReader]
+      rw [key { r with work := r.work - 1 } rfl]
       exact ⟨hcl, hcc, hpa, hfl⟩
   | finish i =>
     simp only [step] at hs
@@ -170,7 +173,7 @@ theorem inv_step (s s' : State) (l : Label) (hinv : SInv s) (hs : step s l = som
     case isTrue hp =>
     simp only [Option.some.injEq] at hs; subst hs
     simp only [setCancellationFlag]
-    exact ⟨hcl, hcc, by intro h; cases h, by decide⟩
+    exact ⟨hcl, hcc, (by intro h; cases h), by decide⟩
   | await =>
     simp only [step] at hs
     split at hs
@@ -212,10 +215,10 @@ theorem inv_step (s s' : State) (l : Label) (hinv : SInv s) (hs : step s l = som
     | input =>
       simp only [Option.some.injEq] at hs; subst hs
       simp only [newRevision]
-      exact ⟨hcl, by decide, by intro h; cases h, by rw [hfl']; decide⟩
+      exact ⟨hcl, by decide, (by intro h; cases h), by rw [hfl']; rfl⟩
     | lruCapacity =>
       simp only [Option.some.injEq] at hs; subst hs
-      exact ⟨hcl, hcc, by intro h; cases h, by rw [hfl']; decide⟩
+      exact ⟨hcl, hcc, (by intro h; cases h), by rw [hfl']; rfl⟩
 
 theorem inv_run : ∀ (ls : List Label) (s s' : State), SInv s → run s ls = some s' → SInv s'
   | [], s, s', hinv, h => by simp only [run, Option.some.injEq] at h; subst h; exact hinv
@@ -240,18 +243,24 @@ theorem measure_reader_step (s s' : State) (l : Label) (hl : l.isReader = true)
     simp only [step, Option.map_eq_some_iff] at hs
     obtain ⟨⟨o, s1⟩, hfs, rfl⟩ := hs
     obtain ⟨r, hr, hlv, hw, hcase⟩ := fetchStep_cases s i o s1 hfs
+    obtain ⟨w, lv, u⟩ := r
+    simp only at hlv hw
+    subst hlv
     rcases hcase with ⟨_, _, rfl⟩ | ⟨_, _, rfl⟩
-    · have := sumBy_set (fun r => if r.live then r.work + 1 else 0) s.readers i r { r with work := 0, unwound := true } hr
-      simp only [hlv, if_true] at this
+    · have := sumBy_set (fun r => if r.live then r.work + 1 else 0) s.readers i _ { work := 0, live := true, unwound := true } hr
+      simp only [if_true] at this
       simp only [setReader]; omega
-    · have := sumBy_set (fun r => if r.live then r.work + 1 else 0) s.readers i r { r with work := r.work - 1 } hr
-      simp only [hlv, if_true] at this
+    · have := sumBy_set (fun r => if r.live then r.work + 1 else 0) s.readers i _ { work := w - 1, live := true, unwound := u } hr
+      simp only [if_true] at this
       simp only [setReader]; omega
   | finish i =>
     simp only [step] at hs
     obtain ⟨r, hr, hlv, rfl⟩ := finish_cases s s' i hs
-    have := sumBy_set (fun r => if r.live then r.work + 1 else 0) s.readers i r { r with live := false } hr
-    simp only [hlv, if_true, Bool.false_eq_true, if_false] at this
+    obtain ⟨w, lv, u⟩ := r
+    simp only at hlv
+    subst hlv
+    have := sumBy_set (fun r => if r.live then r.work + 1 else 0) s.readers i _ { work := w, live := false, unwound := u } hr
+    simp only [if_true, Bool.false_eq_true, if_false] at this
     simp only [setReader]; omega
   | cloneHandle _ _ => cases hl
   | setFlag => cases hl
@@ -367,7 +376,8 @@ theorem epochLt_irrefl (a : Nat × Nat) : ¬ epochLt a a := by
 theorem epoch_bumpCc (s : State) : epochLt (epoch s) (epoch (bumpCc s)) := by
   simp only [bumpCc, bumpCancellationCount]
   split
-  · simp only [Bool.false_eq_true, if_false, epoch, epochLt]; omega
+  · simp only [Bool.false_eq_true, if_false, epoch, epochLt, true_and]
+    omega
   · simp only [if_true, newRevision, epoch, epochLt]; omega
 
 theorem epoch_step (s s' : State) (l : Label) (hs : step s l = some s') :
@@ -440,5 +450,16 @@ theorem epoch_run : ∀ (ls : List Label) (s s' : State), run s ls = some s' →
     rcases hmem with hm | hm
     · exact epochLt_of_lt_of_le (hlt1 hm.symm) hle2
     · exact epochLt_of_le_of_lt hle1 (hlt2 hm)
+
+theorem runSched_succ (s : State) (sched : Nat → Label) (k : Nat) :
+    runSched s sched (k + 1) = (match runSched s sched k with
+      | some s' => step s' (sched k)
+      | none => none) := rfl
+
+theorem runSched_none_add (s : State) (sched : Nat → Label) (k : Nat) (h : runSched s sched k = none) :
+    ∀ j, runSched s sched (k + j) = none
+  | 0 => h
+  | j + 1 => by
+    rw [← Nat.add_assoc, runSched_succ, runSched_none_add s sched k h j]
 
 end SalsaVerif.Proofs.CancelLemmas
